@@ -19,13 +19,13 @@ func init() {
 	core.Register(&core.Property{
 		ID:    "C20",
 		Level: "exploration",
-		Rule: "journals constructed directly (0-6 trips, 0-8 stop times each, every presence pattern of track/arrival/departure/marked-past on both levels, directions False/True/Unspecified, counters incl. -1 and large, times incl. negative, far future and the zero time, ids and tracks from a charset without comma, double quote, CR, LF but with blanks, tabs, #, ;, non-ASCII, and empty strings) and, every 4th case, the journal BuildJournal produces for a generated NYCT history; both tables are read back with encoding/csv under the header names; " +
+		Rule: "size sweep: journals with n trips and one trip with n stop times for every n in the threshold list (2^k, 3*2^k, 10^k, each -1/0/+1) up to 8200 (quick) / 70000 (thorough); then journals constructed directly (0-6 trips, 0-8 stop times each, every presence pattern of track/arrival/departure/marked-past on both levels, directions False/True/Unspecified, counters incl. -1 and large, times incl. negative, far future and the zero time, ids and tracks from a charset without comma, double quote, CR, LF but with blanks, tabs, #, ;, non-ASCII, and empty strings) and, every 4th case, the journal BuildJournal produces for a generated NYCT history; both tables are read back with encoding/csv under the header names; " +
 			"distinct_nontrivial counts distinct (trips, stop times, presence-pattern set, odd-string classes) signatures of journals with at least one stop time",
 		Cases: func(tier string) int {
 			if tier == "thorough" {
-				return 400000
+				return 400000 + 2*len(c20Sizes(tier))
 			}
-			return 30000
+			return 30000 + 2*len(c20Sizes(tier))
 		},
 		Run: runC20,
 		Assumptions: []string{
@@ -236,8 +236,44 @@ func c20Check(c *core.Ctx, j *journal.Journal, origin string) {
 	}
 }
 
+// c20Sizes: journal sizes swept over the threshold list (trip count, and stop times of one trip).
+func c20Sizes(tier string) []int {
+	if tier == "thorough" {
+		return core.Thresholds(70000)
+	}
+	return core.Thresholds(8200)
+}
+
 func runC20(c *core.Ctx) {
 	r := c.R
+	if sizes := c20Sizes(c.Tier); c.Index < 2*len(sizes) {
+		n := sizes[c.Index/2]
+		j := &journal.Journal{}
+		if c.Index%2 == 0 {
+			// n trips, each with 0-2 stop times (the last trips always have some)
+			for i := 0; i < n; i++ {
+				t := journal.Trip{TripUID: fmt.Sprintf("%d_u", i), TripID: fmt.Sprintf("%06d_A..N", i%600000), RouteID: "A", DirectionID: gtfs.DirectionID(i % 3), StartTime: time.Unix(1700000000+int64(i), 0), LastObserved: time.Unix(1700000500, 0), NumUpdates: i}
+				for k := 0; k < 1+i%2; k++ {
+					a := time.Unix(1700000000+int64(60*k), 0)
+					t.StopTimes = append(t.StopTimes, journal.StopTime{StopID: fmt.Sprintf("S%d", k), ArrivalTime: &a, LastObserved: a})
+				}
+				j.Trips = append(j.Trips, t)
+			}
+			c.Feature("size-sweep:trips")
+			c.Shape(fmt.Sprintf("size-sweep trips=%d", n))
+		} else {
+			t := journal.Trip{TripUID: "1_u", TripID: "000001_A..N", StartTime: time.Unix(1700000000, 0), LastObserved: time.Unix(1700000500, 0)}
+			for k := 0; k < n; k++ {
+				a := time.Unix(1700000000+int64(k), 0)
+				t.StopTimes = append(t.StopTimes, journal.StopTime{StopID: fmt.Sprintf("S%d", k), DepartureTime: &a, LastObserved: a})
+			}
+			j.Trips = []journal.Trip{{TripUID: "0_u", LastObserved: time.Unix(5, 0)}, t}
+			c.Feature("size-sweep:stop-times-of-one-trip")
+			c.Shape(fmt.Sprintf("size-sweep stops=%d", n))
+		}
+		c20Check(c, j, fmt.Sprintf("size sweep n=%d", n))
+		return
+	}
 	if c.Index%4 == 3 {
 		h := hgen.Gen(r, hgen.Opts{MaxFeeds: 8, MaxTrips: 4, AlwaysAssigned: true, RepeatStops: true})
 		feeds, err := h.Parse()
